@@ -120,7 +120,11 @@ where
         let data = self.stream.buf_mut().take_chunk(self.remaining_data);
 
         match (data, end) {
-            (None, true) => Poll::Ready(Ok(None)),
+            // A WebTransport stream has no finite length: the end of the stream ends it.
+            (None, true) if self.remaining_data == usize::MAX => Poll::Ready(Ok(None)),
+            // The stream ended while the DATA frame still has payload bytes outstanding:
+            // the frame is truncated.
+            (None, true) => Poll::Ready(Err(FrameStreamError::UnexpectedEnd)),
             (None, false) => Poll::Pending,
             (Some(d), true)
                 if d.remaining() < self.remaining_data
